@@ -348,7 +348,11 @@ def one_list_rule(repo: Repo, rep: Report, rid: str) -> None:
     rep.check(targets == want, rid, f"{fi.key}:installation", "each generated method is installed under its own name", f"generated methods installed as {targets}", fi.loc())
     ue = [s for s in walk_body(fi.node.body) if isinstance(s, ast.Assign) and norm(s.targets[0]) == "classdict['__eq__']" and norm(s.value) == "Union.__eq__"]
     rep.check(len(ue) == 1, rid, f"{fi.key}:union-eq", "unions compare by bytes (Union.__eq__)", "unions no longer take Union.__eq__", fi.loc())
-    u = repo.func("types/structure.py", "Union.__eq__")
+    u = repo.func_opt("types/structure.py", "Union.__eq__")
+    if u is None:
+        rep.fail(rid, "types/structure.py:Union.__eq__:return", "Union.__eq__ no longer exists: unions would be compared field by field, but structure-typed members "
+                      "of a union are UnionProxy objects that only compare by identity, so two unions with equal bytes compare unequal", fi.loc())
+        return
     r = [x for x in walk_body(u.node.body) if isinstance(x, ast.Return)]
     rep.check(len(r) == 1 and "self.__class__ is other.__class__" in norm(r[0].value) and "bytes(self) == bytes(other)" in norm(r[0].value), rid, f"{u.key}:return",
               "same class and equal bytes", f"Union.__eq__ returns '{short(r[0].value if r else None, 60)}'", u.loc())
@@ -420,4 +424,10 @@ def run(repo: Repo, rep: Report, tier: str) -> None:
     from .memo import memo_rule
 
     memo_rule(repo, rep, "C17.R7")
+    from .c01 import walker_rule
+    from .c02 import default_substitution_rule
+
+    default_substitution_rule(repo, rep, "C17.R8")
+    walker_rule(repo, rep, "C17.R9")
+
 
